@@ -38,6 +38,7 @@ type FnResult struct {
 }
 
 type VerifyOpts struct {
+	ForceInt   bool // verify in mathematical-integer mode with exact wrap-around encoding (fallback for index arithmetic)
 	SafetyOnly bool
 	MaxPaths   int
 	MaxSteps   int
@@ -54,7 +55,7 @@ func (w *World) newExec(fn *ssa.Function, ct *Contract, opts VerifyOpts, cuts ma
 	}
 	e := &Exec{C: c, Prog: w.Prog, W: w, Root: fn, RootName: rootName, metaAll: map[int]*ObjMeta{}, labelCount: map[string]int{}, instrLabel: map[ssa.Instruction]string{},
 		Inlined: map[string]bool{}, UsedContracts: map[string]bool{}, UsedIntrinsics: map[string]bool{}, Abstracted: map[string]bool{},
-		MaxSteps: 3000000, MaxPaths: 4000, loopsCache: map[*ssa.Function]*loopInfo{}, symExit: map[*ssa.BasicBlock]bool{}, cutHeaders: cuts, globalIDs: map[*ssa.Global]int{}}
+		MaxSteps: 3000000, MaxPaths: 4000, loopsCache: map[*ssa.Function]*loopInfo{}, symExit: map[*ssa.BasicBlock]bool{}, cutHeaders: cuts, globalIDs: map[*ssa.Global]int{}, inits: map[*ssa.Package]*initResult{}}
 	if opts.MaxPaths > 0 {
 		e.MaxPaths = opts.MaxPaths
 	}
@@ -69,6 +70,11 @@ func (w *World) newExec(fn *ssa.Function, ct *Contract, opts VerifyOpts, cuts ma
 		if ct.MaxPaths > 0 {
 			e.MaxPaths = ct.MaxPaths
 		}
+	}
+	if opts.ForceInt {
+		e.IntMode = true
+		e.Exact = false
+		e.forcedInt = true
 	}
 	e.GlobalInit = w.GlobalInit
 	return e
@@ -215,7 +221,7 @@ func (e *Exec) ghostVal(st *State, g Ghost) sv {
 	case "bytes":
 		l := c.Var("ghost."+g.Name+".len", e.idxSort())
 		st.assume(e.lenFact(l))
-		base := &ArrBase{Name: "ghost." + g.Name + ".arr", Elem: e.elemSort(types.Typ[types.Uint8])}
+		base := e.arrBase("ghost."+g.Name+".arr", types.Typ[types.Uint8])
 		return sv{V: &SeqVal{Len: l, At: func(i *Term) *Term { return e.sel(base, i) }, Elem: base.Elem, ET: types.Typ[types.Uint8]}}
 	case "bool":
 		return sv{V: c.Var("ghost."+g.Name, BoolS), T: types.Typ[types.Bool]}
@@ -233,7 +239,7 @@ func (e *Exec) ghostVal(st *State, g Ghost) sv {
 
 // applyContract: modular call — check pre, havoc frame, assume post.
 func (e *Exec) applyContract(st *State, fr *Frame, fn *ssa.Function, ct *Contract, args []Val, in ssa.Instruction, rt types.Type) []callRes {
-	if ct.Mode == "int" != e.IntMode {
+	if ct.Mode == "int" != e.IntMode && !e.forcedInt {
 		e.bail("call from %s-mode function into %s-mode contract %s", map[bool]string{true: "int", false: "bv"}[e.IntMode], ct.Mode, ct.Func)
 	}
 	var pkg *types.Package
@@ -257,6 +263,18 @@ func (e *Exec) applyContract(st *State, fr *Frame, fn *ssa.Function, ct *Contrac
 		if st.Dead {
 			return nil
 		}
+	}
+	// recursion: the callee's measure must decrease with respect to the verified activation's entry state
+	if fn == e.Root && ct.Decreases != nil && e.rootEnv != nil {
+		m1v := env.eval(ct.Decreases.Expr)
+		m1, _ := env.term(m1v, sv{V: e.idx(0), T: types.Typ[types.Int]})
+		renv := &SpecEnv{e: e, st: e.preState, vars: e.rootEnv.vars, pkg: pkg, where: env.where}
+		m0v := renv.eval(ct.Decreases.Expr)
+		m0, _ := renv.term(m0v, sv{V: e.idx(0), T: types.Typ[types.Int]})
+		g := e.C.And(e.C.Lt(m1, m0, true), e.C.Le(zeroOf(e.C, m1.S), m1, true))
+		e.obligeL(st, "dec", "recursive call: "+ct.Decreases.Text, e.posOfOpt(in), g, nil)
+	} else if fn == e.Root && e.rootEnv != nil {
+		e.Notes = append(e.Notes, "recursive call without `decreases`: termination of the recursion not decided")
 	}
 	old := st.clone()
 	// frame
@@ -307,7 +325,7 @@ func (e *Exec) freshResultVal(st *State, t types.Type, name string) Val {
 			e.metaAll[s.Obj].Growable = false
 			return s
 		}
-		e.bail("contract result of type %s (slice of non-scalars)", t)
+		return e.freshSliceObj(st, u.Elem(), name)
 	case *types.Pointer:
 		id := e.newObj(st, &LazyVal{T: u.Elem(), Name: name + "."}, &ObjMeta{T: u.Elem(), Name: name, Fresh: true})
 		// may be nil: callers that need non-nil must get it from the contract; model as non-nil object + note
@@ -322,7 +340,7 @@ func (e *Exec) havocDeep(st *State, p *PtrVal, depth int, name string) {
 		return
 	}
 	if st.Record != nil {
-		st.Record.Objs[p.Obj] = true
+		st.Record.note(p.Obj, p.Path)
 	}
 	cur := e.load(st, p)
 	nv := e.havocFrame(st, cur, p.T, name, depth)
@@ -337,7 +355,7 @@ func (e *Exec) havocFrame(st *State, v Val, t types.Type, name string, depth int
 			e.metaAll[s.Obj].Growable = false
 			return s
 		}
-		e.bail("frame havoc of slice of non-scalars (%s)", name)
+		return e.freshSliceObj(st, x.ElemT, name)
 	case *PtrVal:
 		if x.Obj != 0 {
 			e.havocDeep(st, x, depth+1, name)
@@ -391,10 +409,10 @@ func (e *Exec) havocLocation(st *State, env *SpecEnv, x ast.Expr) {
 				av := e.sliceBacking(st, y)
 				if av.Scalar {
 					if st.Record != nil {
-						st.Record.Objs[y.Obj] = true
+						st.Record.note(y.Obj, y.Path)
 					}
 					// only the window [off, off+len) may change
-					fresh := &ArrBase{Name: e.C.FreshName("mod.arr"), Elem: av.Elem}
+					fresh := e.arrBase(e.C.FreshName("mod.arr"), av.ElemT)
 					nav := &ArrayVal{ElemT: av.ElemT, Scalar: true, Elem: av.Elem, C: &ArrSplice{Base: av.C, DstOff: y.Off, Src: fresh, SrcOff: y.Off, N: y.Len}, Len: av.Len}
 					st.Heap[y.Obj] = e.update(st, e.root(st, y.Obj), y.Path, func(Val) Val { return nav })
 				}
